@@ -90,8 +90,105 @@ def _orderings_program(seed, run):
 
 
 
+FILLER_K0 = ['\\textbf{d@} x', '$a_{@}$ b', '\\section{S@}', 'w@ \\emph{e} % c\n', '\\begin{itemize}\\item i@\\end{itemize}',
+             '\\verb|v@|', '{g@ {h}}', '\\frac{@}{2}', '\\newcommand{\\c@}[1]{x}', '\\cite[p@]{k}']
+FILLER_K1 = ['\\mb{@}', '\\mv{a{@}b} t', '\\mx*[@]{q}', 'x@ \\mw{p{q}r}', '\\begin{en}[@]{m}b\\end{en}', '\\mz*|@|',
+             '$m_@$ \\mr(r)', '\\lg*[@]{z}', '\\begin{ev}@{\\end{ev}', '\\defn{d@}\\defd[o]{y}', '\\mA<@>', '!v+@+']
+
+
+def _alpha(n):
+    out = ''
+    n += 1
+    while n:
+        n, r = divmod(n - 1, 26)
+        out = chr(97 + r) + out
+    return out
+
+
+NAMES_FILLER = ('\\q#a{x} \\q#b \\q#c[o] \\begin{e#d}\\q#e \\end{e#d} \\q#f \\q#g~\\q#h \\q#i \\q#j \\q#k{y} \\q#l ')
+
+
+def _long_program(rng, tier, run):
+    """Volume: a few hundred (thorough: thousands of) parses in one process.  A small pool of
+    documents comes back again and again between many documents that are parsed only once
+    (fillers), so that whatever is bounded, counted or keyed coarsely inside the library overflows,
+    wraps or collides within one history.  Swarm modes: 'mixed' fillers, 'names' (a dozen names
+    nobody defined per filler: thousands of distinct lookups through one database), 'contexts'
+    (every filler is parsed with a context object of its own: hundreds of context objects)."""
+    mode = rng.choice(['mixed', 'mixed', 'names', 'contexts'])
+    if mode == 'contexts':
+        recipe = rng.choice([['KD'], ['KD'], ['KT'], ['K0'], ['K1'], ['K2']])
+    else:
+        recipe = rng.choice([['K0'], ['K1'], ['K1'], ['K2'], ['K2'], ['K3'], ['KD'], ['KG']])
+    kind = docgen.base_kind(recipe)
+    k1 = kind in ('K1', 'K2')
+    ops = [['mkctx', recipe]]
+    recipes = [recipe]
+    if rng.random() < 0.4:
+        r2 = rng.choice([['K0'], ['K1'], ['K2'], ['KT'], ['KM', 0]])
+        ops.append(['mkctx', r2])
+        recipes.append(r2)
+    g = docgen.DocGen(rng, recipe)
+    pool = []
+    clean = []          # well-formed documents only (the noise operations run without a step budget)
+    while len(pool) < rng.randint(6, 14):
+        d = g.document()
+        if d not in clean:
+            clean.append(d)
+        if rng.random() < 0.2:
+            d = docgen.faulty_variant(rng, d)
+        if d not in pool:
+            pool.append(d)
+    if k1:
+        pool += ['\\mv{a{b}c} tail', '\\mz*[a[b]c]', 'p\n\nq \\mb{r}\n\n', '\\mx*[o]{t} ~ \\my[u]{v}{w}']
+    else:
+        pool += ['a\n\nb \\textbf{c}\n\n', '\\section[s]{t} \\emph{u}~v', '\\title[Short]{Long} \\item[x] y']
+    if tier == 'quick':
+        n_ops = rng.choice([150, 250, 400, 700] if mode == 'mixed' else [300, 450, 700])
+    else:
+        n_ops = rng.choice([300, 600, 1200, 2500, 4000])
+    fam = FILLER_K1 if k1 else FILLER_K0
+    base = rng.randrange(1000)
+    hows = [['filtered', {}], ['extended', [['mb', ['[', '{']]]], ['extended', [['xq', ['{']]]]]
+    can_derive = kind in ('K0', 'K1', 'K2', 'K3')
+    i = 0
+    while len(ops) < n_ops:
+        x = rng.random()
+        if x < 0.55:
+            # filler: a document that was never seen before
+            i += 1
+            if mode == 'names' and rng.random() < 0.9:
+                d = NAMES_FILLER.replace('#', _alpha(base + i))
+            else:
+                d = rng.choice(fam).replace('@', str(base + i)) + rng.choice(['', ' ', ' y', '\n\nz'])
+            if mode == 'contexts':
+                d += rng.choice(['\n\nz', '\n\n', ' w'])
+                if can_derive and rng.random() < 0.7:
+                    # a context object of its own for this one parse
+                    ops.append(['warm', 0, d, rng.random() < 0.3, rng.choice(hows)])
+                    continue
+            ops.append(['warm', 0, d, rng.random() < 0.3])
+        elif x < 0.60 and len(recipes) > 1:
+            i += 1
+            ops.append(['warm', 1, rng.choice(FILLER_K0 + FILLER_K1).replace('@', str(base + i)), rng.random() < 0.3])
+        elif x < 0.63:
+            ops.append(['noise', rng.choice(['latex2text', 'encode']), rng.choice(clean)])
+        elif x < 0.66 and k1:
+            ops.append(['abort', 0, rng.choice(pool) + '\\boom{x}', 'callback', 0])
+        elif x < 0.70:
+            name = rng.choice(PARSER_NAMES)
+            ops.append(['parse', 0, docgen.parser_doc(rng, name), False, ['parser', name, 0, False, True]])
+        elif x < 0.73 and can_derive:
+            ops.append(['parse_tmp', 0, rng.choice(pool), rng.random() < 0.25, [rng.choice(hows)]])
+        else:
+            ops.append(['parse', 0, rng.choice(pool), rng.random() < 0.25, ['general']])
+    return {'batch': 'long', 'ops': ops, 'snap_every': 25}
+
+
 def generate(rng, tier, run):
     seed = int(os.environ.get('VERIF_SEED', '0') or 0)
+    if run % 40 == 33:
+        return _long_program(rng, tier, run)
     if seed not in _pool_cache:
         _pool_cache[seed] = _global_pool(seed)
     gpool = _pool_cache[seed]
@@ -189,6 +286,49 @@ def generate(rng, tier, run):
                 ops.append(['parse', ci, doc, tolerant,
                             ['parser', rng.choice(['expression', 'group', 'anygroup', 'math', 'optsq', 'single']),
                              pos, rng.random() < 0.3]])
+        elif x < 0.40:
+            # parser objects the application keeps and hands to several parse calls (several walkers)
+            name = rng.choice(PARSER_NAMES)
+            for _ in range(rng.randint(2, 3)):
+                d = docgen.parser_doc(rng, name)
+                if rng.random() < 0.25:
+                    d = docgen.faulty_variant(rng, d)
+                pre = rng.choice(['', '', 'ab ', '{x}'])
+                ops.append(['parse', ci, pre + d, rng.random() < 0.3,
+                            ['parser', name, len(pre), rng.random() < 0.2, True]])
+                if rng.random() < 0.3:
+                    ops.append(['parse', ci, rng.choice(pool), rng.random() < 0.3, ['general', None, True]])
+        elif x < 0.43:
+            # ONE walker serves several calls (different entry points, positions, parsing states)
+            d = doc if rng.random() < 0.5 else docgen.parser_doc(rng, rng.choice(PARSER_NAMES)) + ' ' + doc
+            if rng.random() < 0.25:
+                d = docgen.faulty_variant(rng, d)
+            steps = []
+            for _ in range(rng.randint(2, 5)):
+                pos = rng.choice([0, 0, rng.randrange(len(d) + 1)])
+                y = rng.random()
+                if y < 0.3:
+                    steps.append(['general'])
+                elif y < 0.45:
+                    steps.append(['legacy', pos])
+                elif y < 0.6:
+                    steps.append(['legacy2', rng.choice(['expression', 'braced_group', 'environment',
+                                                         'maybe_optional_arg', 'token']), pos])
+                elif y < 0.9:
+                    steps.append(['parser', rng.choice(PARSER_NAMES), pos, rng.random() < 0.3, rng.random() < 0.5])
+                else:
+                    steps.append(['stdarg', rng.choice(docgen.STD_ARG_TYPES), {}, pos])
+            if rng.random() < 0.35:
+                # the way a hand-written parser works: look at one place with one parser, go back, read
+                # it with another (same reader, same parsing-state object)
+                p0 = rng.choice([0, 0, rng.randrange(len(d) + 1)])
+                steps = [['parser', rng.choice(['single', 'optstar', 'expression', 'optsq', 'anygroup']), p0, False,
+                          rng.random() < 0.5],
+                         ['parser', rng.choice(['general', 'single', 'expression']), p0, False, rng.random() < 0.5]] + steps[:2]
+                d = rng.choice(['', ' ', '~', '*']) + d
+                ops.append(['reuse', ci, d, tolerant, steps, True, True])
+            else:
+                ops.append(['reuse', ci, d, tolerant, steps, rng.random() < 0.4, rng.random() < 0.4])
         elif batch == 'aborts' and x < 0.62:
             kind = rng.choice(ABORT_KINDS)
             if kind == 'strict_error':
@@ -307,7 +447,15 @@ def generate(rng, tier, run):
                     ops.append(['parse', ci, bad, False, ['general']])
         else:
             ops.append(['parse', ci, doc, tolerant, ['general']])
-    return {'batch': batch, 'ops': ops}
+            if rng.random() < 0.04:
+                ops.append(['noise', 'gc', ''])
+    prog = {'batch': batch, 'ops': ops}
+    g = rng.random()
+    if g < 0.08:
+        prog['gc'] = 'off'
+    elif g < 0.16:
+        prog['gc'] = 'eager'
+    return prog
 
 
 # --------------------------------------------------------------------------
@@ -365,6 +513,102 @@ def parse_general(ctx, kind, doc, tolerant, clock=None, custom=None, flags=None)
     return res
 
 
+POOL = {}          # history process only: parser objects an application keeps and reuses
+
+
+def _make_parser(name):
+    from pylatexenc.latexnodes import parsers as P
+    from pylatexenc import macrospec
+    return {
+        'expression': lambda: P.LatexExpressionParser(),
+        'group': lambda: P.LatexDelimitedGroupParser(delimiters=('{', '}')),
+        'anygroup': lambda: P.LatexDelimitedGroupParser(delimiters=None, optional=True),
+        'math': lambda: P.LatexMathParser(math_mode_delimiters=None),
+        'optsq': lambda: P.LatexOptionalSquareBracketsParser(),
+        'single': lambda: P.LatexSingleNodeParser(),
+        'general': lambda: P.LatexGeneralNodesParser(),
+        'verbdelim': lambda: P.LatexDelimitedVerbatimParser(),
+        'verbbrace': lambda: P.LatexDelimitedVerbatimParser(delimiters=('{', '}')),
+        'charsgroup': lambda: P.LatexCharsGroupParser(),
+        'commalist': lambda: P.LatexCharsCommaSeparatedListParser(),
+        'multidelim': lambda: P.LatexDelimitedMultiDelimGroupParser(),
+        'optstar': lambda: P.LatexOptionalCharsMarkerParser(['*', '+']),
+        'tackon': lambda: P.LatexTackOnInformationFieldMacrosParser(['label', 'tag'], allow_multiple=['tag']),
+        'stdarg-v': lambda: P.LatexStandardArgumentParser('v'),
+        'stdarg-o': lambda: P.LatexStandardArgumentParser('o', return_full_node_list=True),
+        'argsparser': lambda: macrospec.LatexArgumentsParser(['s', 'o', 'm', 'v']),
+        'envbody': lambda: macrospec.LatexEnvironmentBodyContentsParser('en'),
+        'verbenv': lambda: P.LatexVerbatimEnvironmentContentsParser(environment_name='ev'),
+    }[name]()
+
+
+PARSER_NAMES = ['expression', 'group', 'anygroup', 'math', 'optsq', 'single', 'general', 'verbdelim', 'verbbrace',
+                'charsgroup', 'commalist', 'multidelim', 'optstar', 'tackon', 'stdarg-v', 'stdarg-o', 'argsparser',
+                'envbody', 'verbenv']
+
+
+def _get_parser(name, shared):
+    if not shared:
+        return _make_parser(name)
+    if name not in POOL:
+        POOL[name] = _make_parser(name)
+    return POOL[name]
+
+
+def _entry_fn(w, entry, tr=None, pss=None):
+    """A closure that makes one parse call on walker w (token reader tr when given, else a new one;
+    parsing-state objects pss = {math?: state} when given, else made by the walker per call)."""
+    def reader(pos):
+        if tr is None:
+            return w.make_token_reader(pos=pos)
+        tr.move_to_pos_chars(pos)
+        return tr
+    if entry[0] == 'general':
+        def go():
+            parser = _get_parser('general', len(entry) > 2 and entry[2])
+            nodes, delta = w.parse_content(parser, token_reader=reader(0), parsing_state=pss[False] if pss else None)
+            return D.Dumper().result(nodes, delta)
+    elif entry[0] == 'legacy':
+        def go():
+            r = w.get_latex_nodes(pos=entry[1])
+            nodes, p, ln = r
+            return {'legacy': D.Dumper().result(nodes), 'pos': p, 'len': ln}
+    elif entry[0] == 'legacy2':
+        def go():
+            which, pos = entry[1], entry[2]
+            if which == 'token':
+                return {'token': D.dump_token(w.get_token(pos))}
+            fn = {'expression': w.get_latex_expression, 'braced_group': w.get_latex_braced_group,
+                  'environment': w.get_latex_environment,
+                  'maybe_optional_arg': w.get_latex_maybe_optional_arg}[which]
+            r = fn(pos)
+            if r is None:
+                return {'legacy2': None}
+            nodes, p, ln = r
+            return {'legacy2': D.Dumper().result(nodes), 'pos': p, 'len': ln}
+    elif entry[0] == 'parser':
+        def go():
+            name, pos, math = entry[1], entry[2], entry[3]
+            parser = _get_parser(name, len(entry) > 4 and entry[4])
+            t = reader(pos)
+            if pss:
+                ps = pss[bool(math)]
+            else:
+                ps = w.make_parsing_state(in_math_mode=True) if math else None
+            nodes, delta = w.parse_content(parser, token_reader=t, parsing_state=ps)
+            return dict(D.Dumper().result(nodes, delta), end_pos=t.cur_pos())
+    elif entry[0] == 'stdarg':
+        def go():
+            from pylatexenc.latexnodes.parsers import get_standard_argument_parser
+            parser = get_standard_argument_parser(entry[1], **entry[2])
+            t = reader(entry[3])
+            nodes, delta = w.parse_content(parser, token_reader=t, parsing_state=pss[False] if pss else None)
+            return dict(D.Dumper().result(nodes, delta), end_pos=t.cur_pos())
+    else:
+        raise core.HarnessError("unknown entry %r" % (entry,))
+    return go
+
+
 def do_op(ctx, kind, op, clock=None):
     """Execute a parse / parse_nested operation; returns the canonical dump."""
     if op[0] == 'parse_tmp':
@@ -389,52 +633,28 @@ def do_op(ctx, kind, op, clock=None):
     if op[0] == 'parse':
         doc, tolerant, entry = op[2], op[3], op[4]
         flags = op[5] if len(op) > 5 else None
-        if entry[0] == 'general':
+        if entry[0] == 'general' and not (len(entry) > 2 and entry[2]):
             return parse_general(ctx, kind, doc, tolerant, clock, entry[1] if len(entry) > 1 else None, flags)
         w = _walker(ctx, kind, doc, tolerant, None, flags)
-        if entry[0] == 'legacy':
-            def go():
-                r = w.get_latex_nodes(pos=entry[1])
-                nodes, p, ln = r
-                return {'legacy': D.Dumper().result(nodes), 'pos': p, 'len': ln}
-        elif entry[0] == 'legacy2':
-            def go():
-                which, pos = entry[1], entry[2]
-                if which == 'token':
-                    return {'token': D.dump_token(w.get_token(pos))}
-                fn = {'expression': w.get_latex_expression, 'braced_group': w.get_latex_braced_group,
-                      'environment': w.get_latex_environment,
-                      'maybe_optional_arg': w.get_latex_maybe_optional_arg}[which]
-                r = fn(pos)
-                if r is None:
-                    return {'legacy2': None}
-                nodes, p, ln = r
-                return {'legacy2': D.Dumper().result(nodes), 'pos': p, 'len': ln}
-        elif entry[0] == 'parser':
-            def go():
-                from pylatexenc.latexnodes import parsers as P
-                name, pos, math = entry[1], entry[2], entry[3]
-                parser = {'expression': lambda: P.LatexExpressionParser(),
-                          'group': lambda: P.LatexDelimitedGroupParser(delimiters=('{', '}')),
-                          'anygroup': lambda: P.LatexDelimitedGroupParser(delimiters=None, optional=True),
-                          'math': lambda: P.LatexMathParser(math_mode_delimiters=None),
-                          'optsq': lambda: P.LatexOptionalSquareBracketsParser(),
-                          'single': lambda: P.LatexSingleNodeParser()}[name]()
-                tr = w.make_token_reader(pos=pos)
-                ps = w.make_parsing_state(in_math_mode=True) if math else None
-                nodes, delta = w.parse_content(parser, token_reader=tr, parsing_state=ps)
-                return dict(D.Dumper().result(nodes, delta), end_pos=tr.cur_pos())
-        else:
-            def go():
-                from pylatexenc.latexnodes.parsers import get_standard_argument_parser
-                parser = get_standard_argument_parser(entry[1], **entry[2])
-                tr = w.make_token_reader(pos=entry[3])
-                nodes, delta = w.parse_content(parser, token_reader=tr)
-                return dict(D.Dumper().result(nodes, delta), end_pos=tr.cur_pos())
-        res = _guarded(go)
+        res = _guarded(_entry_fn(w, entry))
         if clock is not None:
             clock[0] += w.sim_clock[0]
         return res
+    if op[0] == 'reuse':
+        # ONE walker (and, when asked, one token reader) serves several parse calls
+        _, _, doc, tolerant, steps, share_reader = op[:6]
+        share_state = len(op) > 6 and op[6]
+        w = _walker(ctx, kind, doc, tolerant, None, None)
+        tr = w.make_token_reader() if share_reader else None
+        # ... and, when asked, one parsing-state object per mode for all calls
+        pss = {False: w.make_parsing_state(), True: w.make_parsing_state(in_math_mode=True)} if share_state else None
+        out = []
+        for entry in steps:
+            w.sim_clock[0] = 0               # the step budget is per call, as for a fresh walker
+            out.append(_guarded(_entry_fn(w, entry, tr, pss)))
+            if clock is not None:
+                clock[0] += w.sim_clock[0]
+        return out
     if op[0] == 'parse_nested':
         _, _, outer, inner, tolerant = op
         docgen.NESTED['inner'] = inner
@@ -519,7 +739,17 @@ def execute(program):
     repo = core.repo_path()
     KEEP['on'] = True
     KEEP['items'] = []
+    if program.get('gc'):
+        # the collector's schedule is part of the environment: never (cyclic garbage stays, addresses
+        # are not reused), or far more eagerly than by default
+        import gc
+        if program['gc'] == 'off':
+            gc.disable()
+        else:
+            gc.set_threshold(40, 2, 2)
+        stats.inc('probe:collector-schedule-' + program['gc'])
     kept_from = {}
+    snap_last = None
     for opi, op in enumerate(program['ops']):
         for it in KEEP['items']:
             kept_from.setdefault(id(it), opi - 1)
@@ -537,6 +767,7 @@ def execute(program):
                 if c[1][0] == 'KM':
                     c[0].update(docgen.macro_dict_variant(op[2]))
                     c[1] = ['KM', op[2]]
+                    snap_last = None
                     stats.inc('op:km_set')
             trace.append({'op': 'km_set'})
             continue
@@ -545,7 +776,10 @@ def execute(program):
             continue
         if kind == 'noise':
             try:
-                if op[1] == 'latex2text':
+                if op[1] == 'gc':
+                    import gc
+                    gc.collect()
+                elif op[1] == 'latex2text':
                     from pylatexenc.latex2text import LatexNodes2Text
                     LatexNodes2Text().latex_to_text(op[2])
                 else:
@@ -577,12 +811,31 @@ def execute(program):
             stats.inc('op:derive_ctx-' + op[2][0])
             trace.append({'op': kind, 'ctx_changed': [i for i in range(len(before)) if before[i] != after[i]]})
             continue
-        before = [context_snapshot(c) for c, _ in ctxs]
+        snap_every = int(program.get('snap_every') or 1)
+        snap_now = (snap_every <= 1) or (opi % snap_every == 0) or opi >= len(program['ops']) - 2
+        if snap_every <= 1 or snap_last is None or len(snap_last) != len(ctxs):
+            before = [context_snapshot(c) for c, _ in ctxs]
+        else:
+            before = snap_last      # the last sample: whatever changed since shows at the next sample
         rec = {'op': kind, 'ctx': ci, 'recipe': list(recipe)}
+        if kind == 'warm':
+            # history only: a parse whose result is not looked at
+            if len(op) > 4 and hasattr(ctx, 'categories'):
+                do_op(ctx, rkind, ['parse_tmp', 0, op[2], op[3], [op[4]]], clock)
+                stats.inc('op:warm-own-context')
+            else:
+                do_op(ctx, rkind, ['parse', 0, op[2], op[3], ['general']], clock)
+            stats.inc('op:warm')
+            if snap_now:
+                after = [context_snapshot(c) for c, _ in ctxs]
+                rec['ctx_changed'] = [i for i in range(min(len(before), len(after))) if before[i] != after[i]]
+                snap_last = after
+            trace.append(rec)
+            continue
         if kind == 'parse_tmp' and (ctx is None or not hasattr(ctx, 'categories')):
             trace.append({'op': kind, 'skipped': True})
             continue
-        if kind in ('parse', 'parse_nested', 'parse_tmp'):
+        if kind in ('parse', 'parse_nested', 'parse_tmp', 'reuse'):
             rec['request'] = [op[0], 0] + list(op[2:])
             rec['result'] = do_op(ctx, rkind, op, clock)
             rec['compare'] = True
@@ -591,6 +844,15 @@ def execute(program):
                 pass
             if op[0] == 'parse' and op[3]:
                 stats.inc('probe:tolerant-parse')
+            if kind == 'reuse':
+                stats.inc('probe:walker-reused-for-%d-calls' % min(len(op[4]), 4))
+                if op[5]:
+                    stats.inc('probe:token-reader-reused')
+                if len(op) > 6 and op[6]:
+                    stats.inc('probe:parsing-state-object-reused')
+            ent = op[4] if kind == 'parse' else None
+            if ent and ((ent[0] == 'parser' and len(ent) > 4 and ent[4]) or (ent[0] == 'general' and len(ent) > 2 and ent[2])):
+                stats.inc('probe:pooled-parser-object-used')
             if rec['result'] == simparse.BUDGET or (isinstance(rec['result'], dict) and
                                                     rec['result'].get('outer') == simparse.BUDGET):
                 stats.inc('probe:budget-exhausted')
@@ -646,8 +908,12 @@ def execute(program):
             rec['fired'] = fired
         else:
             raise core.HarnessError("unknown op %r" % (op,))
-        after = [context_snapshot(c) for c, _ in ctxs]
-        changed = [i for i in range(len(before)) if before[i] != after[i]]
+        if snap_now:
+            after = [context_snapshot(c) for c, _ in ctxs]
+            changed = [i for i in range(min(len(before), len(after))) if before[i] != after[i]]
+            snap_last = after
+        else:
+            changed = []
         rec['ctx_changed'] = changed
         doc_s = op[2] if isinstance(op[2], str) else ''
         rec['stateful'] = any(m in doc_s for m in STATEFUL_MARKS) or \
@@ -758,6 +1024,22 @@ def _references(env, recipe, request, stats):
     return cache[key]
 
 
+def _fresh_entry(entry):
+    """The same call as the reference makes it: a parser object of its own (in a fresh interpreter the
+    pool is empty anyway; dropping the flag lets pooled and unpooled requests share one reference)."""
+    if entry[0] == 'parser' and len(entry) > 4:
+        return list(entry[:4])
+    if entry[0] == 'general' and len(entry) > 2:
+        return list(entry[:2]) if entry[1] else ['general']
+    return entry
+
+
+def _fresh_request(request):
+    if request[0] == 'parse':
+        return request[:4] + [_fresh_entry(request[4])] + request[5:]
+    return request
+
+
 def is_recursion(res):
     s = json.dumps(res)
     return '"RecursionError"' in s
@@ -778,8 +1060,13 @@ def run_program(program, env):
             for how in rq[4]:
                 wanted.append((rec['recipe'], rq[:4] + [[how]]))
             continue
+        if rec.get('op') == 'reuse' and rec.get('compare'):
+            rq = rec['request']
+            for entry in rq[4]:
+                wanted.append((rec['recipe'], ['parse', 0, rq[2], rq[3], _fresh_entry(entry)]))
+            continue
         if rec.get('compare') and not is_recursion(rec['result']):
-            wanted.append((rec['recipe'], rec['request']))
+            wanted.append((rec['recipe'], _fresh_request(rec['request'])))
             if rec['op'] == 'parse_nested':
                 op = program['ops'][i]
                 wanted.append((rec['recipe'], ['parse', 0, op[3], op[4], ['general']]))
@@ -816,10 +1103,29 @@ def run_program(program, env):
             if violation:
                 break
             continue
+        if rec['op'] == 'reuse':
+            rq = rec['request']
+            for k, entry in enumerate(rq[4]):
+                a, b = _references(env, rec['recipe'], ['parse', 0, rq[2], rq[3], _fresh_entry(entry)], stats)
+                stats.inc('compared-parses')
+                stats.inc('probe:reused-walker-call-compared')
+                if a != b:
+                    violation = {'invariant': 'hash-seed-independence', 'op_index': i, 'op': op,
+                                 'observed': _diff(a, b), 'expected': 'equal results under both hash seeds'}
+                    break
+                if k < len(rec['result']) and rec['result'][k] != a and not is_recursion(rec['result'][k]):
+                    violation = {'invariant': 'result-purity', 'op_index': i, 'op': op,
+                                 'observed': _diff(rec['result'][k], a),
+                                 'expected': 'call %d on the reused walker equals the same single call on a new walker '
+                                             'in a fresh interpreter' % k}
+                    break
+            if violation:
+                break
+            continue
         if is_recursion(rec['result']):
             stats.inc('not-compared-recursion')
             continue
-        a, b = _references(env, rec['recipe'], rec['request'], stats)
+        a, b = _references(env, rec['recipe'], _fresh_request(rec['request']), stats)
         stats.inc('compared-parses')
         if a != b:
             violation = {'invariant': 'hash-seed-independence', 'op_index': i, 'op': op,
@@ -880,7 +1186,7 @@ def shrink_candidates(program):
     for i, op in enumerate(ops):
         def repl(new):
             return dict(program, ops=ops[:i] + [new] + ops[i + 1:])
-        if op[0] in ('parse', 'abort', 'parse_nested', 'parse_tmp') and isinstance(op[2], str) and len(op[2]) > 1:
+        if op[0] in ('parse', 'abort', 'parse_nested', 'parse_tmp', 'reuse') and isinstance(op[2], str) and len(op[2]) > 1:
             doc = op[2]
             n = len(doc)
             # halves, then single characters (bounded)
@@ -894,6 +1200,14 @@ def shrink_candidates(program):
         if op[0] == 'parse_tmp' and len(op[4]) > 1:
             for k in range(len(op[4])):
                 yield repl(op[:4] + [op[4][:k] + op[4][k + 1:]])
+        if op[0] == 'reuse':
+            if len(op[4]) > 1:
+                for k in range(len(op[4])):
+                    yield repl(op[:4] + [op[4][:k] + op[4][k + 1:]] + op[5:])
+            if op[5]:
+                yield repl(op[:5] + [False] + op[6:])
+            if len(op) > 6 and op[6]:
+                yield repl(op[:6] + [False])
         if op[0] == 'parse_nested' and len(op[3]) > 1:
             yield repl(op[:3] + [op[3][:len(op[3]) // 2]] + op[4:])
             yield repl(op[:3] + ['a'] + op[4:])
